@@ -333,7 +333,8 @@ type Step struct {
 	Affected uint64
 	Matched  int
 	Rows     []Row // SELECT * afterwards
-	Obs      string
+	Obs      string // class with counts | sorted rows   (C13)
+	ObsNC    string // class | sorted rows               (C14)
 }
 
 func parseMatched(info string) int {
@@ -427,6 +428,7 @@ func (rn *Runner) History(s Schema, next func(i int, cur []Row) *Stmt, stop func
 		d := e.Query(eng.SameSession(ctx), "SELECT * FROM "+table)
 		if d.Class() != "ok" {
 			step.Obs = step.Class + "|dump-failed:" + d.Class()
+			step.ObsNC = step.Obs
 		} else {
 			step.Rows = readTable(e, nil, s, d)
 			cur = step.Rows
@@ -435,6 +437,7 @@ func (rn *Runner) History(s Schema, next func(i int, cur []Row) *Stmt, stop func
 				head = fmt.Sprintf("ok:%d:%d", step.Affected, step.Matched)
 			}
 			step.Obs = head + "|" + renderRows(step.Rows)
+			step.ObsNC = step.Class + "|" + renderRows(step.Rows)
 		}
 		steps = append(steps, step)
 		if stop != nil && stop(i, step) {
@@ -452,6 +455,14 @@ func Fixed(h []Stmt) func(i int, cur []Row) *Stmt {
 		}
 		return &h[i]
 	}
+}
+
+func JoinObsNC(steps []Step) string {
+	obs := make([]string, len(steps))
+	for i, s := range steps {
+		obs[i] = s.ObsNC
+	}
+	return strings.Join(obs, ";")
 }
 
 func JoinObs(steps []Step) string {
@@ -485,12 +496,12 @@ func keyEq(s Schema, cols, prefix []int, a, b Row) bool {
 			continue
 		}
 		sa, sb := va.S, vb.S
-		if j < len(prefix) && prefix[j] > 0 {
-			if len(sa) > prefix[j] {
-				sa = sa[:prefix[j]]
+		if j < len(prefix) && prefix[j] > 0 { // prefix lengths count characters
+			if ra := []rune(sa); len(ra) > prefix[j] {
+				sa = string(ra[:prefix[j]])
 			}
-			if len(sb) > prefix[j] {
-				sb = sb[:prefix[j]]
+			if rb := []rune(sb); len(rb) > prefix[j] {
+				sb = string(rb[:prefix[j]])
 			}
 		}
 		if s.Cols[c].CI {
@@ -537,15 +548,30 @@ type Profile struct {
 	KeylessChance [2]int
 	MaxStmts      int
 	KeyFocus      bool // C14: key-centred statements and colliding values
+	Multibyte     bool // C14: multi-byte strings in prefix-indexed columns
 }
 
 var intPool = []int64{0, 1, 2, 3, 4, 5, 12, 23, 31, 123, 11, 1, 2, 3}
 var strPool = []string{"a", "b", "ab", "ba", "abc", "abd", "", "c", "bc", "a", "ab", "1", "12", "23"}
 var strPoolCI = []string{"a", "A", "b", "B", "ab", "Ab", "aB", "AB", "abc", "ABC", "c", ""}
+var strPoolMB = []string{"é", "è", "éa", "èa", "ab", "ac", "a", "é", "aé", "aè", "€", "₭"}
+
+// hasPrefix reports whether column c carries a prefix length in some unique index.
+func (s Schema) hasPrefix(c int) bool {
+	for _, u := range s.Uniq {
+		for j, k := range u.Cols {
+			if k == c && j < len(u.Prefix) && u.Prefix[j] > 0 {
+				return true
+			}
+		}
+	}
+	return false
+}
 
 type Gen struct {
-	R *hx.Rand
-	P Profile
+	R   *hx.Rand
+	P   Profile
+	cur []Row // rows stored before the statement being generated
 }
 
 func (g *Gen) Schema() Schema {
@@ -601,7 +627,7 @@ func (g *Gen) Schema() Schema {
 		}
 	}
 	for c := range s.Cols {
-		if s.Cols[c].Str && s.IsKeyCol(c) && r.Chance(g.P.CIChance[0], g.P.CIChance[1]) {
+		if s.Cols[c].Str && s.IsKeyCol(c) && !(g.P.Multibyte && s.hasPrefix(c)) && r.Chance(g.P.CIChance[0], g.P.CIChance[1]) {
 			s.Cols[c].CI = true
 		}
 	}
@@ -618,6 +644,9 @@ func (g *Gen) Val(s Schema, c int) Val {
 		if col.CI {
 			return Str(hx.Pick(r, strPoolCI))
 		}
+		if g.P.Multibyte && s.hasPrefix(c) && r.Chance(2, 3) {
+			return Str(hx.Pick(r, strPoolMB))
+		}
 		return Str(hx.Pick(r, strPool))
 	}
 	return Int(hx.Pick(r, intPool))
@@ -631,11 +660,30 @@ func (g *Gen) Row(s Schema) Row {
 	return row
 }
 
+// Rows draws 1..max rows. To reach the interesting paths a row is, with some probability, a copy
+// of the previous row of the statement or of a stored row (exact duplicates: keyless multisets,
+// IGNORE / REPLACE / ODKU conflicts), or takes the key columns of a stored row.
 func (g *Gen) Rows(s Schema, max int) []Row {
-	n := g.R.Range(1, max)
+	r := g.R
+	n := r.Range(1, max)
 	rows := make([]Row, n)
 	for i := range rows {
-		rows[i] = g.Row(s)
+		switch k := r.Intn(12); {
+		case k < 2 && i > 0:
+			rows[i] = append(Row(nil), rows[i-1]...)
+		case k < 4 && len(g.cur) > 0:
+			rows[i] = append(Row(nil), hx.Pick(r, g.cur)...)
+		case k < 6 && len(g.cur) > 0:
+			rows[i] = g.Row(s)
+			src := hx.Pick(r, g.cur)
+			for c := range s.Cols {
+				if s.IsKeyCol(c) && r.Chance(2, 3) {
+					rows[i][c] = src[c]
+				}
+			}
+		default:
+			rows[i] = g.Row(s)
+		}
 	}
 	return rows
 }
@@ -647,7 +695,11 @@ func (g *Gen) asgs(s Schema, odku bool) ([]Asg, bool) {
 	touchesKey := false
 	for i := 0; i < n; i++ {
 		c := r.Intn(len(s.Cols))
-		if s.IsKeyCol(c) && !r.Chance(2, 5) {
+		if g.P.KeyFocus {
+			if !s.IsKeyCol(c) && r.Chance(2, 3) {
+				c = r.Intn(len(s.Cols))
+			}
+		} else if s.IsKeyCol(c) && !r.Chance(2, 5) {
 			c = r.Intn(len(s.Cols))
 		}
 		var a Asg
@@ -791,8 +843,37 @@ func CollisionRisk(s Schema, cur []Row, as []Asg) bool {
 	return false
 }
 
+// dupRow returns a stored row that occurs at least twice (keyless tables), if any.
+func dupRow(cur []Row) Row {
+	seen := map[string]bool{}
+	for _, r := range cur {
+		k := r.Sexp()
+		if seen[k] {
+			return r
+		}
+		seen[k] = true
+	}
+	return nil
+}
+
 func (g *Gen) Stmt(s Schema, cur []Row) Stmt {
+	g.cur = cur
 	st := g.stmt0(s)
+	// keyless multiset semantics: touch exactly one of several equal rows
+	if s.Keyless() && (st.Kind == "upd" || st.Kind == "del") && g.R.Chance(1, 2) {
+		if d := dupRow(cur); d != nil {
+			if o := g.totalOrder(s); o != nil {
+				st.Where = nil
+				for c, v := range d {
+					if !v.Null && !s.Cols[c].CI {
+						st.Where = append(st.Where, Cond{Op: "eq", C: c, V: v})
+						break
+					}
+				}
+				st.Ord, st.Lim = o, 1
+			}
+		}
+	}
 	if (st.Kind == "upd" || st.Kind == "del") && len(st.Ord) == 0 && CollisionRisk(s, cur, st.Asg) {
 		if o := g.totalOrder(s); o != nil {
 			st.Ord = o
@@ -804,6 +885,9 @@ func (g *Gen) Stmt(s Schema, cur []Row) Stmt {
 func (g *Gen) stmt0(s Schema) Stmt {
 	r := g.R
 	k := r.Intn(100)
+	if g.P.KeyFocus { // fewer plain inserts and deletes, more REPLACE / ODKU / UPDATE
+		k = []int{0, 10, 20, 35, 36, 43, 50, 58, 65, 73, 80, 88, 95}[r.Intn(13)]
+	}
 	switch {
 	case k < 30:
 		return Stmt{Kind: "ins", Rows: g.Rows(s, 4), Lim: -1}
@@ -862,6 +946,7 @@ func (g *Gen) Next(s Schema) func(i int, cur []Row) *Stmt {
 		}
 		var st Stmt
 		if i == 0 {
+			g.cur = nil
 			st = Stmt{Kind: "ins", Ignore: true, Rows: g.Rows(s, 5), Lim: -1}
 		} else {
 			st = g.Stmt(s, cur)
